@@ -1,6 +1,6 @@
 (* C18 -- lemmas about the credentials FileStore model (Model/CredFile.v). *)
 From Coq Require Import Permutation.
-From Oras Require Import Base.Prelude Generated.GC18 Model.CredFile.
+From Oras Require Import Base.Prelude Generated.GC18 Model.Utf8 Model.CredFile.
 
 (* ---------- str_eqb ---------- *)
 Lemma str_eqb_false x y : str_eqb x y = false <-> x <> y.
@@ -125,7 +125,10 @@ Definition writes (a : str) (o : op) : Prop :=
   | Get _ => False
   | Put a' _ => a' = a
   | Delete a' => a' = a
+  | SetCs _ => False
   end.
+
+Definition is_setcs (o : op) : Prop := match o with SetCs _ => True | _ => False end.
 
 (* top-level value of key [k] in the file *)
 Definition file_top (k : str) (f : option fdoc) : option tval :=
@@ -255,12 +258,25 @@ Section Proofs.
     inversion F as [|? ? G F']; subst. destruct o; try contradiction. simpl. now apply IH.
   Qed.
 
+  Lemma put_accepts_colon a c : put_accepts a c = true -> contains colon (c_user c) = false.
+  Proof.
+    unfold put_accepts. intro H. apply andb_true_iff in H as [H _]. apply andb_true_iff in H as [H _].
+    apply andb_true_iff in H as [H _]. now apply negb_true_iff in H.
+  Qed.
+
+  Lemma colon_not_accepted a c : contains colon (c_user c) = true -> put_accepts a c = false.
+  Proof. intro H. unfold put_accepts. now rewrite H. Qed.
+
   Lemma put_refused st a c :
-    contains colon (c_user c) = true -> step st (Put a c) = (st, RErrBadCred).
+    put_accepts a c = false -> step st (Put a c) = (st, RErrBadCred).
   Proof. intro H. simpl. now rewrite H. Qed.
 
+  Lemma colon_refused st a c :
+    contains colon (c_user c) = true -> step st (Put a c) = (st, RErrBadCred).
+  Proof. intro H. apply put_refused. now apply colon_not_accepted. Qed.
+
   Lemma put_ok st a c :
-    contains colon (c_user c) = false ->
+    put_accepts a c = true ->
     snd (step st (Put a c)) = ROk /\
     cache_of (fst (step st (Put a c))) = set a (entry_of_cred c) (cache_of st).
   Proof. intro H. simpl. rewrite H. simpl. split; reflexivity. Qed.
@@ -268,9 +284,9 @@ Section Proofs.
   Lemma step_cache_untouched st o a :
     ~ writes a o -> lookup a (cache_of (fst (step st o))) = lookup a (cache_of st).
   Proof.
-    intro NW. destruct o as [a'|a' c|a']; simpl in *.
+    intro NW. destruct o as [a'|a' c|a'|s']; simpl in *; [| | |reflexivity].
     - reflexivity.
-    - destruct (contains colon (c_user c)); [reflexivity|]. unfold cache_of. simpl.
+    - destruct (put_accepts a' c); [|reflexivity]. unfold cache_of. simpl.
       apply lookup_set_neq. exact NW.
     - destruct (lookup a' (m_cache (st_mem st))) eqn:E; [|reflexivity]. unfold cache_of. simpl.
       apply lookup_del_neq. exact NW.
@@ -288,14 +304,14 @@ Section Proofs.
 
   (* ----- C18_roundtrip ----- *)
   Lemma roundtrip st a c h :
-    contains colon (c_user c) = false ->
+    put_accepts a c = true ->
     b64ok (c_user c ++ colon :: c_pass c) ->
     (forall o, In o h -> ~ writes a o) ->
     snd (step st (Put a c)) = ROk /\
     get_candidates (cache_of (run (fst (step st (Put a c))) h)) a = [RCred c] /\
     snd (step (run (fst (step st (Put a c))) h) (Get a)) = RCred c.
   Proof.
-    intros NC OK NW. destruct (put_ok st a c NC) as [R C].
+    intros ACC OK NW. pose proof (put_accepts_colon a c ACC) as NC. destruct (put_ok st a c ACC) as [R C].
     assert (L : lookup a (cache_of (run (fst (step st (Put a c))) h)) = Some (entry_of_cred c)).
     { rewrite run_cache_untouched by exact NW. rewrite C. apply lookup_set_eq. }
     assert (G : get_candidates (cache_of (run (fst (step st (Put a c))) h)) a = [RCred c]).
@@ -369,7 +385,7 @@ Section Proofs.
      untouched in memory, and the file either still is the one [st0] saw or is
      exactly the in-memory document with the current cache as its auths *)
   Definition descends (st0 st : state) : Prop :=
-    m_cs (st_mem st) = m_cs (st_mem st0) /\
+    True /\
     (forall k, k <> configFieldAuths -> k <> configFieldCredentialsStore ->
                lookup k (m_content (st_mem st)) = lookup k (m_content (st_mem st0))) /\
     (st = st0 \/
@@ -382,20 +398,20 @@ Section Proofs.
 
   Lemma save_descends st0 st m :
     descends st0 st ->
-    m_content m = m_content (st_mem st) -> m_cs m = m_cs (st_mem st) ->
+    m_content m = m_content (st_mem st) ->
     descends st0 (save m).
   Proof.
-    intros (C & O & _) EC ES. unfold descends, save, cache_of. cbn [st_mem st_file m_content m_cache m_cs].
-    split; [congruence|]. split.
+    intros (_ & O & _) EC. unfold descends, save, cache_of. cbn [st_mem st_file m_content m_cache m_cs].
+    split; [exact I|]. split.
     - intros k N1 N2. rewrite saved_doc_other by assumption. rewrite EC. now apply O.
     - right. split; [reflexivity|]. split; [apply saved_doc_auths|apply saved_doc_cs].
   Qed.
 
   Lemma step_descends st0 st o : descends st0 st -> descends st0 (fst (step st o)).
   Proof.
-    intro D. destruct o as [a|a c|a]; simpl.
+    intro D. destruct o as [a|a c|a|s']; simpl; [| | |now apply (save_descends st0 st)].
     - exact D.
-    - destruct (contains colon (c_user c)); simpl; [exact D|].
+    - destruct (put_accepts a c); simpl; [|exact D].
       now apply (save_descends st0 st).
     - destruct (lookup a (m_cache (st_mem st))); simpl; [|exact D].
       now apply (save_descends st0 st).
@@ -425,6 +441,35 @@ Section Proofs.
       repeat split; auto. discriminate.
   Qed.
 
+  Lemma run_cs_untouched h : forall st,
+    (forall o, In o h -> ~ is_setcs o) -> m_cs (st_mem (run st h)) = m_cs (st_mem st).
+  Proof.
+    induction h as [|o h IH]; intros st NS; [reflexivity|].
+    simpl. rewrite IH by (intros o' I; apply NS; now right).
+    assert (N : ~ is_setcs o) by (apply NS; now left).
+    destruct o as [a|a c|a|s']; simpl in *; [reflexivity| | |tauto].
+    - destruct (put_accepts a c); reflexivity.
+    - destruct (lookup a (m_cache (st_mem st))); reflexivity.
+  Qed.
+
+  (* SetCredentialsStore: the file holds the new credsStore (dropped when empty) and nothing else changes *)
+  Lemma setcs_step st s :
+    let st' := fst (step st (SetCs s)) in
+    snd (step st (SetCs s)) = ROk /\
+    cache_of st' = cache_of st /\
+    file_top configFieldCredentialsStore (st_file st') = cs_value s /\
+    file_top configFieldAuths (st_file st') = Some (TAuths (cache_of st)) /\
+    (forall k, k <> configFieldAuths -> k <> configFieldCredentialsStore ->
+               file_top k (st_file st') = lookup k (m_content (st_mem st))).
+  Proof.
+    cbn [step fst snd save st_file file_top cache_of st_mem m_cache].
+    split; [reflexivity|]. split; [reflexivity|].
+    split; [exact (saved_doc_cs {| m_content := m_content (st_mem st); m_cache := m_cache (st_mem st); m_cs := s |})|].
+    split; [exact (saved_doc_auths {| m_content := m_content (st_mem st); m_cache := m_cache (st_mem st); m_cs := s |})|].
+    intros k N1 N2.
+    exact (saved_doc_other {| m_content := m_content (st_mem st); m_cache := m_cache (st_mem st); m_cs := s |} k N1 N2).
+  Qed.
+
   (* ----- C18_preserves_rest ----- *)
   Lemma preserves_rest f st0 h :
     open_store f = Some st0 ->
@@ -433,20 +478,22 @@ Section Proofs.
     (forall k, k <> configFieldAuths -> k <> configFieldCredentialsStore ->
                file_top k (st_file stf) = file_top k f) /\
     (* a configured credsStore *)
-    (forall s, s <> [] -> file_top configFieldCredentialsStore f = Some (TCs s) ->
+    ((forall o, In o h -> ~ is_setcs o) ->
+     forall s, s <> [] -> file_top configFieldCredentialsStore f = Some (TCs s) ->
                file_top configFieldCredentialsStore (st_file stf) = Some (TCs s)) /\
     (* every auths entry no operation of the history addressed *)
     (forall a, (forall o, In o h -> ~ writes a o) ->
                file_entry a (st_file stf) = file_entry a f).
   Proof.
     intros OP stf. destruct (open_store_spec f st0 OP) as (F0 & T0 & E0 & C0).
-    pose proof (run_descends h st0 st0 (descends_refl st0)) as (CS & OT & FILE).
-    fold stf in CS, OT, FILE.
+    pose proof (run_descends h st0 st0 (descends_refl st0)) as (_ & OT & FILE).
+    fold stf in OT, FILE.
     split; [|split].
     - intros k N1 N2. destruct FILE as [SAME|(FE & _ & _)].
       + rewrite SAME, F0. reflexivity.
       + rewrite FE. simpl. rewrite OT by assumption. apply T0.
-    - intros s NE TC. destruct FILE as [SAME|(FE & _ & CE)].
+    - intros NS s NE TC. pose proof (run_cs_untouched h st0 NS) as CS. fold stf in CS.
+      destruct FILE as [SAME|(FE & _ & CE)].
       + rewrite SAME, F0. exact TC.
       + rewrite FE. simpl. rewrite CE, CS, (C0 s TC). destruct s; [contradiction|reflexivity].
     - intros a NW. destruct FILE as [SAME|(FE & AE & _)].
@@ -473,7 +520,7 @@ Section Proofs.
   Lemma fs_run_disabled h : forall st, fs_run true st h = run st (filter not_put h).
   Proof.
     induction h as [|o h IH]; intro st; [reflexivity|].
-    destruct o as [a|a c|a]; simpl; now rewrite IH.
+    destruct o as [a|a c|a|s']; simpl; now rewrite IH.
   Qed.
 
   (* without Puts the cache only loses entries *)
@@ -481,7 +528,7 @@ Section Proofs.
     not_put o = true ->
     lookup a (cache_of (fst (step st o))) = Some e -> lookup a (cache_of st) = Some e.
   Proof.
-    destruct o as [a'|a' c|a']; simpl; intros NP L; [exact L|discriminate|].
+    destruct o as [a'|a' c|a'|s']; simpl; intros NP L; [exact L|discriminate| |exact L].
     destruct (lookup a' (m_cache (st_mem st))) eqn:E; [|exact L].
     unfold cache_of in L. simpl in L.
     destruct (str_eqb a' a) eqn:EA.
@@ -562,13 +609,14 @@ Section Proofs.
     snd (step st o) = snd (mem_step m o) /\ sim (fst (step st o)) (fst (mem_step m o)).
   Proof.
     intros S (PA & OKO). pose proof S as (PK & LK & GD).
-    destruct o as [a|a c|a]; cbn [op_addr] in PA.
+    destruct o as [a|a c|a|s']; cbn [op_addr] in PA; [| | |split; [reflexivity|exact S]].
     - split; [|exact S]. rewrite step_get. cbn [mem_step snd].
       pose proof (get_cache_in_candidates (cache_of st) a) as I.
       rewrite (sim_get st m a S PA) in I. destruct I as [I|[]]. now symmetry.
-    - cbn [mem_step]. destruct (contains colon (c_user c)) eqn:NC.
-      + rewrite put_refused by exact NC. split; [reflexivity|exact S].
-      + destruct (put_ok st a c NC) as [R C]. split; [exact R|]. cbn [fst].
+    - cbn [mem_step]. destruct (put_accepts a c) eqn:ACC; cbn [negb].
+      2:{ rewrite put_refused by exact ACC. split; [reflexivity|exact S]. }
+      + pose proof (put_accepts_colon a c ACC) as NC.
+        destruct (put_ok st a c ACC) as [R C]. split; [exact R|]. cbn [fst].
         split; [|split].
         * intros k e I. rewrite C in I. destruct I as [E|I]; [injection E as <- _; exact PA|].
           apply in_del in I as [_ I]. now apply (PK k e).
@@ -610,8 +658,8 @@ Section Proofs.
                 m_cs (st_mem st1) = m_cs (st_mem (run st0 h)).
   Proof.
     intros OP. set (stf := run st0 h).
-    pose proof (run_descends h st0 st0 (descends_refl st0)) as (CS & OT & FILE).
-    fold stf in CS, OT, FILE.
+    pose proof (run_descends h st0 st0 (descends_refl st0)) as (_ & OT & FILE).
+    fold stf in OT, FILE.
     destruct (open_store_spec f st0 OP) as (F0 & T0 & _ & _).
     destruct FILE as [SAME|(FE & AE & CE)].
     - exists st0. rewrite SAME, F0. auto.
@@ -630,6 +678,89 @@ Section Proofs.
       destruct (m_cs (st_mem stf)); reflexivity.
   Qed.
 End Proofs.
+
+(* ----- reading the file: lossy decoding of keys (known finding lone-surrogate) ----- *)
+Lemma sanitize_fuel_valid n : forall s, valid_fuel n s = true -> sanitize_fuel n s = s.
+Proof.
+  induction n as [|n IH]; intros [|c r] V; try reflexivity; try discriminate.
+  cbn [valid_fuel] in V. cbn [sanitize_fuel].
+  destruct (rune_len (c :: r)) as [k|]; [|discriminate].
+  rewrite (IH _ V). apply firstn_skipn.
+Qed.
+
+Lemma sanitize_valid s : valid_utf8 s = true -> sanitize s = s.
+Proof. apply sanitize_fuel_valid. Qed.
+
+(* every string encoding/json decodes when loading the document is valid UTF-8 *)
+Definition tval_utf8 (v : tval) : Prop :=
+  match v with
+  | TRaw _ _ => True
+  | TAuths l => Forall (fun ae => valid_utf8 (fst ae) = true) l
+  | TCs s => valid_utf8 s = true
+  end.
+Definition doc_utf8 (d : fdoc) : Prop :=
+  Forall (fun kv => valid_utf8 (fst kv) = true /\ tval_utf8 (snd kv)) d.
+
+Lemma decode_doc_utf8 d : doc_utf8 d -> decode_doc d = d.
+Proof.
+  induction 1 as [|[k v] d [K V] _ IH]; [reflexivity|].
+  cbn [decode_doc map fst snd] in *. fold (decode_doc d). rewrite IH. f_equal. f_equal.
+  - now apply sanitize_valid.
+  - destruct v as [raw kd|l|cs]; cbn [decode_tval tval_utf8] in *; [reflexivity| |now rewrite sanitize_valid].
+    f_equal. induction V as [|[a e] l A _ IHl]; [reflexivity|].
+    cbn [map fst snd] in *. rewrite IHl. now rewrite (sanitize_valid a A).
+Qed.
+
+Lemma open_file_utf8 d : doc_utf8 d -> open_file (Some d) = open_store (Some d).
+Proof.
+  intro U. unfold open_file. rewrite (decode_doc_utf8 d U).
+  unfold open_store. destruct (load_doc d); reflexivity.
+Qed.
+
+Definition file_utf8 (f : option fdoc) : Prop :=
+  match f with Some d => doc_utf8 d | None => True end.
+
+Lemma open_file_store f : file_utf8 f -> open_file f = open_store f.
+Proof. destruct f as [d|]; [apply open_file_utf8|reflexivity]. Qed.
+
+Section Lossy.
+  Variable b64enc : str -> str.
+  Variable b64dec : str -> option str.
+
+  (* preservation for documents whose decoded strings are valid UTF-8 *)
+  Lemma preserves_rest_partial f st0 h :
+    file_utf8 f -> open_file f = Some st0 ->
+    let stf := run b64enc b64dec st0 h in
+    (forall k, k <> configFieldAuths -> k <> configFieldCredentialsStore ->
+               file_top k (st_file stf) = file_top k f) /\
+    ((forall o, In o h -> ~ is_setcs o) ->
+     forall s, s <> [] -> file_top configFieldCredentialsStore f = Some (TCs s) ->
+               file_top configFieldCredentialsStore (st_file stf) = Some (TCs s)) /\
+    (forall a, (forall o, In o h -> ~ writes a o) ->
+               file_entry a (st_file stf) = file_entry a f).
+  Proof. intros U OP. rewrite (open_file_store f U) in OP. now apply preserves_rest. Qed.
+
+  (* without that hypothesis it fails: a top-level key holding a lone surrogate
+     escape is renamed by the first save *)
+  Definition lone_key : str := [107; 237; 160; 128].        (* "k\ud800" *)
+  Definition lone_doc : fdoc := [(lone_key, TRaw [49] KOther)].
+  Definition lone_put : op :=
+    Put [97] {| c_user := []; c_pass := []; c_refresh := [116]; c_access := [] |}.
+
+  Lemma preserves_rest_refuted :
+    exists f st0 h k,
+      open_file f = Some st0 /\
+      k <> configFieldAuths /\ k <> configFieldCredentialsStore /\
+      file_top k f <> None /\
+      file_top k (st_file (run b64enc b64dec st0 h)) = None.
+  Proof.
+    exists (Some lone_doc). eexists. exists [lone_put], lone_key.
+    split; [vm_compute; reflexivity|].
+    split; [intro H; apply str_eqb_spec in H; vm_compute in H; discriminate|].
+    split; [intro H; apply str_eqb_spec in H; vm_compute in H; discriminate|].
+    split; [vm_compute; discriminate|vm_compute; reflexivity].
+  Qed.
+End Lossy.
 
 (* ----- the defect fixed in config.Load (kept as a witness) ----- *)
 Lemma null_document_refuted :
